@@ -257,6 +257,14 @@ func c03FormatCase(w *rt.W, v sem.Ver) {
 			w.Fail("format-verb", "format", args, verb+" -> "+s, wantV, "Sprintf "+verb)
 		}
 	}
+	for _, vb := range []struct {
+		verb rune
+		want string
+	}{{'s', text}, {'v', text}, {'t', "v" + text}, {'d', text}} {
+		if s := formatVia(v, vb.verb); s != vb.want {
+			w.Fail("format-verb", "format", args, "Format(%"+string(vb.verb)+") through a plain fmt.State -> "+s, vb.want, "the verb selects the form whatever the fmt.State is")
+		}
+	}
 	for _, verb := range wideVerbs {
 		if s := fmt.Sprintf(verb, v); s != text {
 			w.Fail("format-verb", "format", args, verb+" -> "+s, text, "Sprintf "+verb)
